@@ -111,12 +111,12 @@ func tvLoad() (*wuffsym.File, error) {
 }
 
 func init() {
-	names := []string{"arith8", "arith16", "arith32", "arith64", "ideal", "compare", "builtins", "arrays", "jumps", "calls"}
+	names := []string{"arith8", "arith16", "arith32", "arith64", "ideal", "compare", "builtins", "arrays", "jumps", "calls", "refined"}
 	register(&PropSpec{ID: "C04", Level: "model_checking",
 		Outside: []string{
 			"programs other than the ten functions of harness/wuffs/tv/tv.wuffs; coroutines, I/O types, slices, tables, iterate, choose, io_bind/io_limit, signed integers, statuses (the reference interpreter does not model them)",
 			"sequences of more than one public call (one call from an arbitrary receiver state inside the field refinements)",
-			"arguments outside their refinements",
+			"arguments outside their refinements, except for the rejection itself (harness_tv_refined: both bounds of two refined parameters)",
 		},
 		Assume: []string{
 			"the meaning of the source is given by engine/wuffsym, an interpreter of the AST produced by the tree's tokenizer, parser and checker (types and constant values are the checker's): ideal integers for non-modular operators, assumed to fit the expression's type (that is C01), ~mod wraps and ~sat clamps at the operand type's width, zero-initialised variables, statement order, guarded path merging, loops unrolled 12 times with an unwinding obligation",
